@@ -917,3 +917,36 @@ def _wire(name):
 
 MONITORS["C03w"] = _wire("mon_c03w")
 MONITORS["C05w"] = _wire("mon_c05w")
+
+
+# ------------------------------------------------------------------------------------------------ C02 (through the reader thread)
+def mon_c02_threads(spec, run):
+    """what the registered callback is told = the independent reading of the complete lines the device sent, in order, once each —
+    however the bytes were split over reads and whatever the library's other threads did in between"""
+    from .wire import parse_line
+    tr = run.trace
+    bad = []
+    lc = lifecycle(tr)
+    end = lc["final_close"] if lc["final_close"] is not None else 10 ** 12
+    want = []
+    for rseq, wend, text in lines_by_read(tr):
+        if wend < end:
+            want.append(parse_line(text))
+    got = [(e["status"], e["su"], e["fn"], e["val"]) for e in tr if e["k"] == "msg_cb" and e["cb"] == 1 and e["seq"] < end]
+    skip = lambda m: m[1] == "SYS" and m[2] == "MODELNAME"  # noqa: E731   (keep-alive replies are withheld: C13's business)
+    want = [m for m in want if not skip(m)]
+    got = [m for m in got if not skip(m)]
+    # lines whose syntax the property does not fix must still yield exactly one notification: compare those by position only
+    if len(got) < len(want) or len(got) > len(want) + 1:
+        bad.append(("count", f"{len(got)} notifications for {len(want)} complete lines; first difference near {next((w for w, g in zip(want, got) if w != g), want[len(got)] if len(got) < len(want) else got[-1])}"))
+    else:
+        for w, g in zip(want, got):
+            if w[1] is not None or w[0] != "OK":
+                if tuple(w) != tuple(g):
+                    bad.append(("parse", f"a line that reads {w} was reported as {g}"))
+                    break
+    sent = [bytes.fromhex(e["data"]) for e in tr if e["k"] == "feed"] if False else None
+    return bad
+
+
+MONITORS["C02t"] = mon_c02_threads
